@@ -61,6 +61,7 @@ SHAPES = [
     ("twice-same-nt", "S: A x A | A x a; A: a;"),
     ("nullable-chain-rec", "S: b S A | A; A: b A | EMPTY;"),
     ("nullable-tail-alt", "S: a B | A S S | EMPTY; A: a; B: EMPTY;"),
+    ("unit-chain-empty", "S: p A | q X u; A: W u | W t; W: X; X: Y; Y: EMPTY;"),
 ]
 
 
